@@ -180,3 +180,136 @@ def check_atomic_queue_geometry(chk, m, K, min_depth=8):
     z = [n for n in ("sendp", "full_flags", "receivep") if ival(f[n]) != 0]
     chk.ob("S10.atomic-queue-geometry", inst + " empty", not z, "sendp, full_flags and receivep start at 0" + (" (not: %s)" % ", ".join(z) if z else ""),
            loc, "kernel")
+
+
+# ---------------------------------------------------------------------------------------------
+# shadow state: a bit of fibre_t.state that caches "this fibre is on kernel.runq"
+# ---------------------------------------------------------------------------------------------
+
+_FLAG_VERDICT = {}
+
+
+def _bit_behaviour(val, cell_ptr, mask):
+    """How the masked bits of the stored value relate to the cell's old content: 'set' | 'clear' | 'keep' | None (depends on
+    something else).  Decided by evaluating the expression with the old content (any load of the cell) and every other
+    atom at all-zeros and all-ones: exact for expressions built from bitwise operators and constants, None otherwise."""
+    res = {}
+    for old in (0, 0xffffffff):
+        for other in (0, 0xffffffff):
+            def ev(e):
+                k = e[0]
+                if k == "c":
+                    return e[2]
+                if k == "ld":
+                    return (old if e[1] == cell_ptr else other) & ((1 << (8 * e[2])) - 1)
+                if k == "cast" and e[1] in ("zext", "trunc", "sext"):
+                    v = ev(e[4])
+                    if e[1] == "sext" and v >> (e[2] - 1) & 1:
+                        v |= ((1 << e[3]) - 1) & ~((1 << e[2]) - 1)
+                    return v & ((1 << e[3]) - 1)
+                if k == "b" and e[1] in ("and", "or", "xor"):
+                    a, b = ev(e[3]), ev(e[4])
+                    return {"and": a & b, "or": a | b, "xor": a ^ b}[e[1]] & ((1 << e[2]) - 1)
+                if k in ("call", "arg", "sym", "ald", "rmw"):
+                    return other
+                raise ValueError(k)
+            try:
+                res[(old, other)] = ev(val) & mask
+            except (ValueError, IndexError, TypeError):
+                return None
+    vals = set(res.values())
+    if vals == {mask}:
+        return "set"
+    if vals == {0}:
+        return "clear"
+    if all(res[(0, o)] == 0 and res[(0xffffffff, o)] == mask for o in (0, 0xffffffff)):
+        return "keep"
+    return None
+
+
+def check_flag_tracks_runq(chk, m, K, mask):
+    """S11: a bit of fibre_t.state is used as evidence that a fibre is (not) on the run queue.  That is sound exactly if the
+    bit is set wherever a fibre is put on kernel.runq, cleared wherever one is taken off it, and preserved by every other
+    store to fibre_t.state (the fibre's initialiser excepted: it stores a state with the bit clear for a fibre that is on
+    no queue).  Checked on every loop-free segment of every function of fibre.c.  Returns True / False / None (undecided)."""
+    key = (id(m), mask)
+    if key in _FLAG_VERDICT:
+        return _FLAG_VERDICT[key]
+    st_off = K.fibre["state"][0]
+    verdict = True
+    n_sites = 0
+
+    def cell_of(node):
+        r, o, v = ptr_parts(node)
+        return None if v else paths.mkptr(r, o - K.link_off + st_off)
+    for fn in m.defined_functions():
+        try:
+            segs = [(s, p) for s, p in paths.enumerate_segments(fn, m, call_effects=EFFECTS) if p.end != "unreachable"]
+        except AnalysisError:
+            continue
+        for s, p in segs:
+            sid = "%s %s..%s [%s]" % (fn.name, s.lstrip("%"), p.end, "->".join(b.lstrip("%") for b in p.blocks[-2:]))
+            ev = p.events
+            stores = [(k, e) for k, e in enumerate(ev) if e.kind == "store" and e.size == K.fibre["state"][1]
+                      and paths.field_of(e.ptr, fn, m)[1] in ("state",) and paths.field_of(e.ptr, fn, m)[0] in ("fibre", "fibre_t")]
+            # stores through a pointer that is not rooted at an argument: recognise the cell by shape (link pointer - link_off + state_off)
+            need = []       # (cell pointer, 'set' | 'clear', what, loc)
+            for k, c in calls_on(p):
+                if c.callee == "list_insert" and c.args and K.queue_arg(c.args[0]) == "runq":
+                    need.append((cell_of(c.args[1]), "set", "list_insert(&kernel.runq, ..)", c.inst.loc))
+                elif c.callee == "list_extract" and c.args and K.queue_arg(c.args[0]) == "runq":
+                    isnull = None
+                    for cd, t, i in p.conds:
+                        cc = strip_casts(cd)
+                        if cc[0] == "icmp" and cc[1] in ("eq", "ne") and {strip_casts(cc[2]), strip_casts(cc[3])} == {c.res, ("null",)}:
+                            isnull = (cc[1] == "eq") == bool(t)
+                    if isnull is not True:
+                        need.append((cell_of(c.res), "clear", "list_extract(&kernel.runq)", c.inst.loc))
+                elif c.callee == "list_remove" and c.args and K.queue_arg(c.args[0]) == "runq":
+                    truth = [t for k2, e2, t in cond_truth_of_call(p, "list_remove") if e2 is c]
+                    if not truth or truth[0] is not False:
+                        need.append((cell_of(c.args[1]), "clear", "a successful list_remove(&kernel.runq, ..)", c.inst.loc))
+                elif c.callee in ("list_push", "list_insert_sorted", "list_iterator_remove", "list_iterator_insert") and c.args and \
+                        K.queue_arg(c.args[0]) == "runq":
+                    chk.unknown("S11.flag-tracks-runq", sid, "%s on the run queue is not modelled by this rule" % c.callee, c.inst.loc)
+                    verdict = None
+            cells = {}
+            for k, e in enumerate(ev):
+                if e.kind == "store" and e.size == K.fibre["state"][1]:
+                    cells.setdefault(e.ptr, []).append(e)
+            for cell, want, what, loc in need:
+                n_sites += 1
+                hits = [_bit_behaviour(e.val, cell, mask) for e in cells.get(cell, [])] if cell is not None else []
+                ok = want in hits and not [h for h in hits if h not in (want, "keep")]
+                chk.ob("S11.flag-tracks-runq", "%s %s" % (sid, what), ok,
+                       "the membership bit of the fibre's state is %s on the segment that performs %s" % ({"set": "set", "clear": "cleared"}[want], what)
+                       if ok else
+                       "%s is not accompanied by a store that %s the membership bit (%#x) of that fibre's state: from here on the bit says the "
+                       "opposite of where the fibre is - a fibre taken off the run queue is never queued again (every later run request is "
+                       "ignored), or one on it is linked in twice" % (what, {"set": "sets", "clear": "clears"}[want], mask), loc, fn.name)
+                if not ok and verdict is not None:
+                    verdict = False
+            owned = set(c for c, w, wh, l in need)
+            for cell, lst in cells.items():
+                if cell in owned:
+                    continue
+                # is this a fibre_t.state cell at all?  (shape: some pointer + state_off of a fibre): by debug info where possible
+                s_, f_ = paths.field_of(cell, fn, m)
+                root = ptr_parts(cell)[0]
+                is_state = (f_ == "state" and s_ in ("fibre", "fibre_t")) or (root[0] == "ld" and root[1] == K.kptr("current") and ptr_parts(cell)[1:] == (st_off, ()))
+                if not is_state:
+                    continue
+                for e in lst:
+                    n_sites += 1
+                    b = _bit_behaviour(e.val, cell, mask)
+                    ok = b == "keep" or (fn.name == "fibre_init" and b == "clear")
+                    chk.ob("S11.flag-tracks-runq", "%s store to fibre state at %s" % (sid, e.inst.loc), ok,
+                           "a store to the fibre's state that does not move it on or off the run queue keeps the membership bit"
+                           + (" (initialiser: the bit starts clear)" if fn.name == "fibre_init" else "") if ok else
+                           "this store to the fibre's state %s the membership bit (%#x) although the fibre is not moved on or off the run queue here"
+                           % ({"set": "sets", "clear": "clears", None: "may change"}[b], mask), e.inst.loc, fn.name)
+                    if not ok and verdict is not None:
+                        verdict = False
+    chk.expect("S11", "membership-bit obligations", n_sites, 3)
+    _FLAG_VERDICT[key] = verdict
+    return verdict
